@@ -61,15 +61,23 @@ func n2config(c *explore.Chooser) (n2.EmuConfig, refamf.Config) {
 	// in the last partial octet shows); alternative: the shipped 00 01 02 (03). Octets stay below 0x80: a YAML "\xNN"
 	// escape denotes a Unicode character, not an octet.
 	id := []byte{0x12, 0x34, 0x56, 0x7b}[:(bits+7)/8]
-	if c.Pick("gnb_id-bytes", 2) == 1 {
+	switch c.Pick("gnb_id-bytes", 4) {
+	case 1:
 		id = []byte{0x00, 0x01, 0x02, 0x03}[:(bits+7)/8]
+	case 2: // octets that are white space when read as text, at both ends (the id is binary: nothing may trim it)
+		id = []byte{0x20, 0x09, 0x0a, 0x20}[:(bits+7)/8]
+		if bits <= 24 {
+			id = []byte{0x0d, 0x41, 0x20}
+		}
+	case 3:
+		id = []byte{0x0a, 0x00, 0x04, 0x0c}[:(bits+7)/8]
 	}
 	if bits%8 != 0 { // a configured id is written left aligned; unused bits zero
 		id = append([]byte{}, id...)
 		id[len(id)-1] &= 0xff << uint(8-bits%8)
 	}
 	e.GnbID = string(id)
-	e.GnbName = []string{"open5gs", "g", strings.Repeat("n", 150)}[c.Pick("gnb_name", 3)]
+	e.GnbName = []string{"open5gs", "g", strings.Repeat("n", 150), " cn=gnb01,o=upm (lab+1/2:a?) ", "A'B.C-D"}[c.Pick("gnb_name", 5)]
 	a := refamf.Config{IMSI: e.IMSI, MCC: e.MCC, MNC: e.MNC, K: k, OPc: opc, GnbID: id, GnbBits: uint64(bits), GnbName: e.GnbName,
 		GnbGtpIP: []byte{192, 168, 61, 3}, SST: 1, SD: []byte{1, 2, 3}, MaxUE: 32}
 	return e, a
